@@ -15,7 +15,7 @@ def main():
     n_s, _ = games.collect_walk(chk, results_s, paths_s)
     n1 += n_s
     # one long game with passes, played and taken back: more take-backs in a row than any fixed-size store of snapshots holds
-    results_l, paths_l = games.walk_traces(chk, events=0, files=1 if q else 3, label="walk_long", long=700 if q else 1500)
+    results_l, paths_l = games.walk_traces(chk, events=0, files=1 if q else 2, label="walk_long", long=700 if q else 1100)
     n_l, _ = games.collect_walk(chk, results_l, paths_l)
     n1 += n_l
     results = results + results_s + results_l
